@@ -37,3 +37,26 @@ Lemma src_copy_copies_single : copy_copies_single src_cfg = true.
 Proof. reflexivity. Qed.
 Lemma src_copy_final_clears : has_eff EClearDirect (copy_final src_cfg) = true /\ has_eff ECacheClear (copy_final src_cfg) = true.
 Proof. split; reflexivity. Qed.
+(* register_(un)structure_hook never goes through a side registry (fixed finding F9) *)
+Lemma src_route_un_plain : route_plain (r_un src_csrc) = true.
+Proof. reflexivity. Qed.
+Lemma src_route_st_plain : route_plain (r_st src_csrc) = true.
+Proof. reflexivity. Qed.
+Lemma src_copy_no_ureg : copy_base_ureg src_csrc = false /\ copy_full_ureg src_csrc = false.
+Proof. split; reflexivity. Qed.
+Lemma src_first_un : first_always (base_un src_csrc) = true.
+Proof. reflexivity. Qed.
+Lemma src_first_st : first_always (base_st src_csrc) = true.
+Proof. reflexivity. Qed.
+Lemma src_copy_clears_direct : has_eff EClearDirect (copy_final src_cfg) = true.
+Proof. reflexivity. Qed.
+Lemma src_copy_clears_cache : has_eff ECacheClear (copy_final src_cfg) = true.
+Proof. reflexivity. Qed.
+(* copy() forwards every construction option of each class (fixed finding F5a: the fallback factories) *)
+Definition all_base_opts : list copt := [ODictFactory; OStrat; OPrefer; ODetailed; OUnstructFallback; OStructFallback].
+Definition all_full_opts : list copt := all_base_opts ++ [OOmit; OForbid; OTypeOv; OCollOv].
+Definition covers (passes all : list copt) : bool := forallb (fun o => existsb (copt_eqb o) passes) all.
+Lemma src_copy_base_forwards_all : covers (copy_base src_csrc) all_base_opts = true.
+Proof. reflexivity. Qed.
+Lemma src_copy_full_forwards_all : covers (copy_full src_csrc) all_full_opts = true.
+Proof. reflexivity. Qed.
